@@ -254,12 +254,8 @@ func LoadPackage(dir string) (*PackageInfo, error) {
 	}
 
 	for i, vdir := range vdirs {
-		if vdir == dir {
-			// The main package has a version label
-			packageInfo.Versions[i].Package = packageInfo
-			continue
-		}
-
+		// A version that refers to the main package itself is loaded again like any other version: sharing the
+		// PackageInfo would make the package graph cyclic, and the config override code walks it recursively.
 		versionInfo, err := loadPackageVersion(vdir)
 		if err != nil {
 			return packageInfo, err
